@@ -14,7 +14,7 @@ LEVEL = "exploration"
 META = {
     "engine": "model-monitor",
     "technique": "runtime monitor: go-to-definition answers at every use site of generated multi-file programs compared with the program model's resolver (gfortran-validated programs)",
-    "text": "Multi-file programs are generated from a model of modules, nested procedures, derived types (EXTENDS, components, bindings), generic interfaces and USE graphs with ONLY/rename/PUBLIC/PRIVATE/re-export, in which each use site has exactly one accessible declaration; gfortran must accept each program. go-to-definition is asked at three columns of every use site and must land on the declaration line and name range of the bound entity; a PRIVATE entity of another module must never be the answer. Program space is sampled.",
+    "text": "Multi-file programs are generated from a model of modules, nested procedures, derived types (EXTENDS, components, bindings), generic interfaces and USE graphs with ONLY/rename/PUBLIC/PRIVATE/re-export, in which each use site has exactly one accessible declaration; gfortran must accept each program. go-to-definition is asked at three columns of every use site and must land on the declaration line and name range of the bound entity; a PRIVATE entity of another module must never be the answer. Program space is sampled. Every 12th case is a host-association workspace (submodule, INCLUDEd fragments, a declaration fragment shared by two includers) with unique names, where every occurrence must lead to the one declaration.",
     "note": "trusted: the reference resolver (60 lines) and gfortran -fsyntax-only as validity guard; identifiers are never keywords; generic names resolve to the interface block; free-form canonical layout (layouts are C13's subject)",
 }
 RULE = ("generated workspaces (2-4 modules + program + optional external procedure; small identifier pool so spellings recur) accepted by gfortran; "
